@@ -67,7 +67,7 @@ CHECKS = {
                 "(any bytes appended after a complete first transaction change nothing unless it logs in); bad/short handshake gets "
                 "not one byte. Correspondence: real handleNewConnection over net.Pipe on real account tables (7 password shapes incl. "
                 "72-byte, NUL, empty; guest present/absent), handshake variants, password variants (one bit off, prefix, extension, NUL "
-                "variants that collide under bcrypt), first transactions of other types / malformed / oversize / truncated, effectful "
+                "variants that collide under bcrypt, the old password after a successful login and a password change through the account manager), first transactions of other types / malformed / oversize / truncated, effectful "
                 "requests appended; observed: every byte the peer received, what a logged-in observer received, config+file tree "
                 "before/after, client registry.",
         "note": "Found and repaired (11f422e): failed logins were announced to logged-in users as departures. Trusted: bcrypt abstraction, "
@@ -134,7 +134,7 @@ CHECKS = {
                 "present); read_is_whole (rewind + read-to-end returns the complete current text for every cursor position and every "
                 "chunking, changing neither text nor file); every_history (for EVERY order of any number of posters and readers: each "
                 "reader gets the text current at its turn, the final board is all posts newest first on the initial text, the file "
-                "equals the board once a post was made); no_post_lost_newest_first; unlocked_cursor_refuted (two readers, witness "
+                "equals the board once a post was made); no_post_lost_newest_first; every_post_is_kept_whole (each post of the history is a contiguous piece of the final board); unlocked_cursor_refuted (two readers, witness "
                 "schedule); post_has_no_line_feed. Correspondence: real HandleTranOldPostNews / HandleGetMsgs on a real FlatNews "
                 "(format incl. names with line feeds, announcement to every connected user, file after each acknowledged post, restart "
                 "from the file), concurrent batches (2-8 readers x 3-8 reads, 1-4 posters, released together): every read must equal a "
@@ -297,7 +297,7 @@ CHECKS = {
         "text": "Theorems (Props/C16.v) over tables REGENERATED from hotline/access.go on every run: for ALL 2^64 bitmaps and every bit, "
                 "load(save(b)) has bit i iff b has it and i is one of the 40 defined privileges (also as the equation load(save b) = mask b); "
                 "the legacy array form loads the same bytes; the YAML key of every bit equals the protocol reference table (both directions); "
-                "the Access* constants are the protocol numbers. Generic lemma: tables_consistent -> save/load law; the finite consistency "
+                "the Access* constants are the protocol numbers; Set i then IsSet j = (i=j) or the old bit; a second save/load round changes nothing; load(save b) = b exactly when b has only defined bits. Generic lemma: tables_consistent -> save/load law; the finite consistency "
                 "obligation is discharged by computation on the generated tables, so a swapped/missing/wrong entry in either hand-written Go "
                 "table breaks a proof obligation. Correspondence through the real YAMLAccountManager + yaml.v3: all 64 single bits in both "
                 "formats, pairs of defined bits, random bitmaps, migration of legacy files, and the user-access field/Authorize at a real login.",
